@@ -82,6 +82,10 @@ func main() {
 			fmt.Println(err)
 			os.Exit(2)
 		}
+		if *dump == "model" {
+			props.DumpStateModel(p)
+			return
+		}
 		parts := strings.SplitN(*dump, ":", 2)
 		f, err := p.Func(parts[0], parts[1])
 		if err != nil {
